@@ -39,11 +39,12 @@ vars == <<s>>
 
 NoCall == [st |-> "none", types |-> {}, mode |-> "single", key |-> 0, resp |-> <<>>,
            wake |-> "none", at |-> 0]
+NoMeta == [mode |-> "none", key |-> 0, from |-> 0]
 CallIds == {"hl", "dr", "c1", "c2", "c3"}
 UserCalls == {"c1", "c2", "c3"}
 
 InitState(cfg) ==
-  [ cfg |-> cfg,                 \* [noise, exp, login, K]
+  [ cfg |-> cfg,                 \* [noise, exp, login, K, hist]   hist: keep the arrival history (model checking of C11 only)
     now |-> 0,
     cs |-> "init", ic |-> FALSE, sock |-> "none", tr |-> "none",
     sockset |-> FALSE,           \* connection._socket assigned (the start task took the socket)
@@ -62,6 +63,9 @@ InitState(cfg) ==
     calls |-> [i \in CallIds |-> NoCall],
     cout |-> [i \in UserCalls |-> "idle"],     \* outcome of user calls
     cres |-> [i \in UserCalls |-> <<>>],       \* result of user calls
+    cmeta |-> [i \in UserCalls |-> NoMeta],    \* what the caller asked for (input, kept after completion)
+    seen |-> <<>>,               \* history (only if cfg.hist): every valid message dispatched so far
+    hseen |-> <<>>,              \* the responses the finish phase based its success on (C06)
     subs |-> {},                 \* user subscriptions [id, kind, script]
     wf |-> FALSE,                \* transport.write raises
     \* outputs of the current callback
@@ -138,7 +142,7 @@ CallTake(c, m) ==
        IN IF StopP(c, m) THEN [c1 EXCEPT !.st = "woken", !.wake = "ok"] ELSE c1
 
 \* user subscribers registered for kind k at this moment, in id order
-SubsFor(x, k) == {u \in x.subs : u.kind = k}
+SubsFor(x, k) == {u \in x.subs : u.kind = k \/ u.kind = "*"}
 RECURSIVE DeliverSubs(_, _, _)
 \* deliver m to the snapshot `todo` (a set); scripts may change x.subs meanwhile
 DeliverSubs(x, todo, m) ==
@@ -159,7 +163,8 @@ ProcessPacket(x, m) ==
   ELSE IF m.k = "unknown" THEN x                      \* undefined type: no effect at all (C12)
   ELSE IF m.k = "garbage" THEN Fatal(x, "ProtocolAPIError")
   ELSE
-   LET x0 == [DelTimer(x, "pong") EXCEPT !.pping = FALSE]
+   LET x0 == [DelTimer(x, "pong") EXCEPT !.pping = FALSE,
+                                          !.seen = IF x.cfg.hist THEN Append(@, m) ELSE @]
        \* request/response calls registered for the kind
        x1 == [x0 EXCEPT !.calls = [i \in CallIds |-> CallTake(x0.calls[i], m)]]
        \* user subscribers (snapshot of the handler set)
@@ -273,17 +278,21 @@ HelloVerdict(x, resp) ==
 
 \* The phase resumes although the connection closed meanwhile.  If the responses it
 \* was waiting for had already arrived and are themselves a reason to fail (incompatible
-\* version, bad name, bad password), reporting that reason is as good as the close cause.
+\* version, bad name, bad password), that specific reason is what the caller gets (C06):
+\* the device answered, and its answer rules the session out whatever happened next.
 FinishStepAlt(x0) ==
   LET x == Begin(x0) c == x.calls["hl"] IN
   FailFinish(x, HelloVerdict(x, c.resp))
 FinishStepAltEnabled(x) ==
   /\ x.cs = "closed" /\ x.fi.pc = "hello" /\ x.calls["hl"].wake = "ok"
-  /\ HelloVerdict(x, x.calls["hl"].resp) # "ok"
+  /\ HelloVerdict(x, x.calls["hl"].resp) \notin {"ok", "ANY"}
 
 FinishStep(x0) ==
   LET x == Begin(x0) IN
-  IF x.cs = "closed" THEN FailFinish(x, "interrupted")
+  IF FinishStepAltEnabled(x) THEN FinishStepAlt(x0)
+  \* the hello call had already timed out when the connection closed: the caller gets the timeout
+  ELSE IF x.cs = "closed" /\ x.fi.pc = "hello" /\ x.calls["hl"].wake = "TimeoutAPIError" THEN FailFinish(x, "TimeoutAPIError")
+  ELSE IF x.cs = "closed" THEN FailFinish(x, "interrupted")
   ELSE IF x.fi.pc = "create" THEN
      \* create_connection returned: assign helper, arm the handshake timer
      LET x1 == AddTimer([x EXCEPT !.fhset = TRUE, !.fi.wake = "none", !.fi.pc = "ready"], "hs", x.now + THandshake)
@@ -298,17 +307,16 @@ FinishStep(x0) ==
         LET v == HelloVerdict(x, c.resp)
             y == DelTimer([x EXCEPT !.calls["hl"] = NoCall], "call:hl")
         IN IF v # "ok" THEN FailFinish(y, v)
-           ELSE Done(AddTimer([y EXCEPT !.cs = "connected", !.ic = TRUE, !.pping = TRUE,
+           ELSE Done(AddTimer([y EXCEPT !.cs = "connected", !.ic = TRUE, !.pping = TRUE, !.hseen = c.resp,
                                         !.fi = [@ EXCEPT !.pc = "done", !.wake = "none", !.out = "ok"]],
                               "ping", x.now + x.cfg.K), "finish", "ok")
-     ELSE IF c.st = "pending" /\ Due(x, "call:hl") THEN FailFinish(x, "TimeoutAPIError")
      ELSE FailFinish(x, c.wake)
 FinishStepEnabled(x) ==
   /\ x.fi.pc \in {"create", "ready", "hello"}
   /\ \/ x.cs = "closed"
      \/ (x.fi.pc = "create" /\ x.fi.wake = "ok")
      \/ (x.fi.pc = "ready" /\ (x.fh = "ready" \/ Due(x, "hs") \/ x.fi.wake # "none"))
-     \/ (x.fi.pc = "hello" /\ (x.calls["hl"].st = "woken" \/ Due(x, "call:hl")))
+     \/ (x.fi.pc = "hello" /\ x.calls["hl"].st = "woken")
 
 \* the device completes / fails the Noise handshake (frame-helper level is NoiseHelper.tla)
 EnvHandshake(x0, res) ==    \* res: "ok" | error class reported by the helper
@@ -363,27 +371,36 @@ UserCall(x0, id, mode, key) ==
   IF ~r.ok THEN Done([r.x EXCEPT !.cout[id] = r.cls], id, r.cls)
   ELSE AddTimer([r.x EXCEPT !.calls[id] = [st |-> "pending", types |-> CallTypes(mode), mode |-> mode, key |-> key,
                                             resp |-> <<>>, wake |-> "none", at |-> x.now + TCall],
-                            !.cout[id] = "pending"],
+                            !.cout[id] = "pending",
+                            !.cmeta[id] = [mode |-> mode, key |-> key, from |-> Len(x.seen)]],
                 CallTimer(id), x.now + TCall)
 
 Keys(resp) == [i \in 1..Len(resp) |-> IF resp[i].k = "A" THEN resp[i].key ELSE 0]
 
+\* the call's timeout timer fires (its own loop callback): handle_timeout fails the future
+\* unless it is already done; the task resumes in a later callback
+CallTimerFire(x0, id) ==
+  LET x == Begin(x0) IN
+  IF x.calls[id].st = "pending"
+  THEN DelTimer([x EXCEPT !.calls[id].st = "woken", !.calls[id].wake = "TimeoutAPIError"], CallTimer(id))
+  ELSE DelTimer(x, CallTimer(id))
+CallTimerFireEnabled(x, id) == Due(x, CallTimer(id))
+
 CallStep(x0, id) ==
   LET x == Begin(x0) c == x.calls[id]
       y == DelTimer([x EXCEPT !.calls[id] = NoCall], CallTimer(id))
-  IN IF c.st = "pending" /\ Due(x, CallTimer(id))
-     THEN Done([y EXCEPT !.cout[id] = "TimeoutAPIError"], id, "TimeoutAPIError")
-     ELSE IF c.wake = "ok" THEN DoneR([y EXCEPT !.cout[id] = "ok", !.cres[id] = Keys(c.resp)], id, "ok", Keys(c.resp))
+  IN IF c.wake = "ok" THEN DoneR([y EXCEPT !.cout[id] = "ok", !.cres[id] = Keys(c.resp)], id, "ok", Keys(c.resp))
      ELSE Done([y EXCEPT !.cout[id] = c.wake], id, c.wake)
-CallStepEnabled(x, id) ==
-  \/ x.calls[id].st = "woken"
-  \/ (x.calls[id].st = "pending" /\ Due(x, CallTimer(id)))
+CallStepEnabled(x, id) == x.calls[id].st = "woken"
 
 \* the caller cancels its own call: the finally block still cleans up
 CancelCall(x0, id) ==
   LET x == Begin(x0) IN
   IF x.calls[id].st = "none" THEN x
   ELSE [x EXCEPT !.calls[id] = [@ EXCEPT !.st = "woken", !.wake = "Cancelled"]]
+
+\* fire-and-forget send of one message (commands)
+UserSend(x0, n) == Send(Begin(x0), <<n>>).x
 
 \* ----------------------------------------------------------- subscribe
 UserSub(x0, id, kind, script) == [Begin(x0) EXCEPT !.subs = @ \cup {[id |-> id, kind |-> kind, script |-> script]}]
@@ -430,7 +447,7 @@ DiscStep(x0) ==
      Done([Cleanup(y) EXCEPT !.di = [pc |-> "done", wake |-> "none", out |-> "ok"]], "disconnect", "ok")
 DiscStepEnabled(x) ==
   \/ (x.di.pc = "waitfin" /\ (~FinishInProgress(x) \/ x.cs = "closed" \/ Due(x, "dwait")))
-  \/ (x.di.pc = "resp" /\ (x.calls["dr"].st = "woken" \/ Due(x, "call:dr")))
+  \/ (x.di.pc = "resp" /\ x.calls["dr"].st = "woken")
 
 UserForce(x0) ==
   LET x == [Begin(x0) EXCEPT !.expected = TRUE] IN
@@ -442,6 +459,27 @@ SetWriteFail(x0, b) == [Begin(x0) EXCEPT !.wf = b]
 NextDeadline(x) == IF x.tm = {} THEN 0 ELSE (CHOOSE t \in x.tm : \A u \in x.tm : t.at <= u.at).at
 NothingDue(x) == \A t \in x.tm : t.at > x.now
 
+
+\* ------------------------------------------------- projection helpers
+\* number of entries in connection._message_handlers (summed over types) and in
+\* connection._read_exception_futures
+Live(c) == c.st \in {"pending", "woken"}
+Handlers(x) ==
+  (IF x.ih THEN 3 ELSE 0) + Cardinality(x.subs)
+  + LET F(i) == IF Live(x.calls[i]) THEN Cardinality(x.calls[i].types) ELSE 0
+    IN F("hl") + F("dr") + F("c1") + F("c2") + F("c3")
+Waiters(x) == IF x.cs = "closed" THEN 0 ELSE Cardinality({i \in CallIds : Live(x.calls[i])})
+
+\* ------------------------------------------- a freshly connected session
+\* the happy path composed from the very same operators, everything at time 0
+HelloMsgs(cfg) == IF cfg.login THEN <<[k |-> "hello", major |-> 1, name |-> "dev"], [k |-> "connect", invalid |-> FALSE]>>
+                  ELSE <<[k |-> "hello", major |-> 1, name |-> "dev"]>>
+InitConnected(cfg) ==
+  LET a == StartStep(EnvTcp(StartStep(EnvResolve(UserStart(InitState(cfg)), "ok")), "ok"))
+      b == FinishStep(ConnMade(UserFinish(a, cfg.login)))
+      c == IF cfg.noise THEN FinishStep(EnvHandshake(b, "ok")) ELSE b
+  IN Begin(FinishStep(EnvChunk(c, HelloMsgs(cfg))))
+
 \* ============================================================ PROPERTIES
 Rank(c) == CASE c = "init" -> 0 [] c = "opened" -> 1 [] c = "hsdone" -> 2 [] c = "connected" -> 3 [] c = "closed" -> 4
 \* C05
@@ -450,7 +488,13 @@ ClosedFinal == [][s.cs = "closed" => s'.cs = "closed"]_s
 ConnectedFlag == s.ic = (s.cs = "connected")
 \* C06
 SessionOnlyIfCompatible ==
-  s.fi.out = "ok" => s.cs \in {"connected", "closed"}
+  s.fi.out = "ok" =>
+     /\ s.cs \in {"connected", "closed"}
+     /\ Len(s.hseen) >= 1 /\ s.hseen[1].k = "hello" /\ s.hseen[1].major <= 2
+     /\ (s.cfg.exp = "none" \/ s.hseen[1].name \in {"", s.cfg.exp})     \* "" = device that announces no name (LegacyNoName)
+     /\ (s.fi.login => Len(s.hseen) >= 2 /\ s.hseen[2].k = "connect" /\ ~s.hseen[2].invalid)
+FailedConnectClosedNoStop ==
+  (s.fi.out \notin {"idle", "pending", "ok"} /\ s.fi.pc = "done") => (s.cs = "closed" /\ s.stops = <<>>)
 \* C07
 StopAtMostOnce == Len(s.stops) <= 1
 StopOnlyIfConnected == (Len(s.stops) = 1) => s.fi.out = "ok"
@@ -464,12 +508,42 @@ Silent == [][s.cs = "closed" => (s'.w = <<>> /\ s'.d = <<>>)]_s
 \* once everything has run, nothing is left
 Quiescent(x) == /\ ~StartStepEnabled(x) /\ ~FinishStepEnabled(x) /\ ~DiscStepEnabled(x)
                 /\ \A i \in UserCalls : ~CallStepEnabled(x, i)
+                /\ \A i \in CallIds : ~CallTimerFireEnabled(x, i)
                 /\ ~x.cm /\ (x.lost = "none" \/ x.cs = "closed")   \* connection_lost on a closed connection is a no-op
 ReleasedAtRest ==
   (s.cs = "closed" /\ Quiescent(s)) =>
      /\ s.tr # "open" /\ s.tm = {}
      /\ s.st.out # "pending" /\ s.fi.out # "pending" /\ s.di.out # "pending"
      /\ \A i \in UserCalls : s.cout[i] # "pending"
+
+\* C11 (needs cfg.hist): a call's result is a function of the arrivals after its request
+Arr(x, id) == SubSeq(x.seen, x.cmeta[id].from + 1, Len(x.seen))
+MRel(meta, m) == m.k \in CallTypes(meta.mode)
+MApp(meta, m) == CASE meta.mode = "single" -> TRUE [] meta.mode = "list" -> m.k # "done" [] meta.mode = "filter" -> m.key = meta.key
+MStop(meta, m) == CASE meta.mode = "single" -> TRUE [] meta.mode = "list" -> m.k = "done" [] meta.mode = "filter" -> m.key = meta.key
+StopIdx(meta, arr) == {i \in 1..Len(arr) : MRel(meta, arr[i]) /\ MStop(meta, arr[i])}
+FirstStop(meta, arr) == IF StopIdx(meta, arr) = {} THEN 0 ELSE CHOOSE i \in StopIdx(meta, arr) : \A j \in StopIdx(meta, arr) : i <= j
+RelApp(meta, m) == MRel(meta, m) /\ MApp(meta, m)
+Expected(meta, arr) ==
+  LET n == FirstStop(meta, arr)
+      idx == {i \in 1..n : RelApp(meta, arr[i])}
+      \* the i-th accepted arrival
+      RECURSIVE Pick(_, _)
+      Pick(S, acc) == IF S = {} THEN acc ELSE LET i == CHOOSE v \in S : \A w \in S : v <= w IN Pick(S \ {i}, Append(acc, arr[i]))
+  IN Keys(Pick(idx, <<>>))
+CallResultExact ==
+  \A id \in UserCalls :
+    /\ s.cout[id] = "ok" => /\ FirstStop(s.cmeta[id], Arr(s, id)) > 0
+                            /\ s.cres[id] = Expected(s.cmeta[id], Arr(s, id))
+    \* a call whose stop response has been dispatched is never left waiting
+    /\ (s.cout[id] = "pending" /\ s.calls[id].st = "pending") => FirstStop(s.cmeta[id], Arr(s, id)) = 0
+CallLeavesNothing ==
+  \A id \in UserCalls :
+    s.cout[id] \notin {"idle", "pending"} => (s.calls[id] = NoCall /\ ~HasTimer(s, CallTimer(id)))
+CallTimeoutExact ==
+  \A id \in UserCalls :
+    /\ (s.cout[id] = "pending" /\ s.calls[id].st = "pending") => s.now <= s.calls[id].at
+    /\ HasTimer(s, CallTimer(id)) => s.calls[id].st \in {"pending", "woken"}
 \* C09
 ClassifiedErrors ==
   \A o \in {s.st.out, s.fi.out, s.di.out} \cup {s.cout[i] : i \in UserCalls} :
